@@ -153,12 +153,13 @@ def call_line(spec):
 
 
 def mk_preds(spec):
-    """the predicate arguments: a bare callable (wrap=0) or a ready BoboPredicateCall (wrap=1)."""
+    """the predicate arguments: a bare callable (wrap=0), a ready BoboPredicateCall (wrap=1) or a ready type-checked
+    BoboPredicateCallType(dtype=int) (wrap=2; the probe event carries an int, so its function runs on the probe)."""
     wraps = spec.get('wrap') or [0] * len(spec['ids'])
     out = []
     for k, w in zip(spec['ids'], wraps):
         f = Fn(k)
-        out.append(BoboPredicateCall(f) if w else f)
+        out.append(BoboPredicateCallType(f, int) if w == 2 else BoboPredicateCall(f) if w else f)
     return out
 
 
@@ -182,7 +183,7 @@ def do_builder_case(case, res: Result, lines, impl, accepted):
         bad('builder-ctor', 'BoboPatternBuilder("") accepted an empty name')
         return
     exp_blocks, exp_pre, exp_halt = [], [], []
-    given = []       # (block index range, predicate objects handed in)
+    given_pre, given_halt = [], []
     for ci, spec in enumerate(calls):
         m = spec['m']
         preds = mk_preds(spec)
@@ -217,6 +218,7 @@ def do_builder_case(case, res: Result, lines, impl, accepted):
         if m in ('precondition', 'haltcondition'):
             impl.append('ok')
             (exp_pre if m == 'precondition' else exp_halt).append(spec['ids'][0])
+            (given_pre if m == 'precondition' else given_halt).append(preds[0])
             if added:
                 bad('builder-block-table', f"{m} appended a block")
             continue
@@ -276,6 +278,33 @@ def do_builder_case(case, res: Result, lines, impl, accepted):
     if pred_ids(p.preconditions) != ','.join(map(str, exp_pre)) or pred_ids(p.haltconditions) != ','.join(map(str, exp_halt)):
         bad('builder-order', f"pre/haltconditions P[{pred_ids(p.preconditions)}] H[{pred_ids(p.haltconditions)}]; "
                              f"calls in order give P{exp_pre} H{exp_halt}")
+    # identity / type check kept: a predicate OBJECT handed to precondition() / haltcondition() is the one the pattern holds,
+    # and a type-checked predicate added through any builder method still refuses data of another type without
+    # calling the user's function
+    for what, given_l, got_l in (('precondition', given_pre, p.preconditions), ('haltcondition', given_halt, p.haltconditions)):
+        for g_, h_ in zip(given_l, got_l):
+            if isinstance(g_, BoboPredicate) and h_ is not g_:
+                bad('builder-block-table', f"{what}: a BoboPredicate handed in was replaced by a {type(h_).__name__}")
+    typed_ids = {k for spec in calls for k, w in zip(spec['ids'], spec.get('wrap') or []) if w == 2}
+    if typed_ids:
+        odd = BoboEventSimple('odd', 0, 'n/a')
+        for q in [x for blk in p.blocks for x in blk.predicates] + list(p.preconditions) + list(p.haltconditions):
+            LOG.clear()
+            try:
+                q.evaluate(PROBE, EMPTY)
+            except Exception:   # noqa
+                continue
+            if LOG and LOG[0] in typed_ids:
+                LOG.clear()
+                try:
+                    verdict = q.evaluate(odd, EMPTY)
+                except Exception as e:   # noqa
+                    verdict = 'raised ' + type(e).__name__
+                if LOG or verdict is not False:
+                    bad('typed-predicate-check-lost', f"a BoboPredicateCallType(dtype=int) added through the builder was evaluated on data "
+                                                      f"'n/a': verdict {verdict}, user function called: {bool(LOG)}")
+                    break
+
     def mod3(preds):      # for part (3) only the behaviour of the predicates matters: Fn(k) accepts data = k mod 3
         return tuple(int(i) % 3 if i.isdigit() else i for i in pred_ids(preds).split(',')) if preds else ()
     key = str((tuple((x.strict, x.loop, x.negated, x.optional, mod3(x.predicates)) for x in p.blocks),
@@ -302,6 +331,9 @@ def reduced_alphabet():
         C('followed_by_any', []), C('followed_by_any', [1, 0], loop=True, optional=True),
         C('not_followed_by_any', [2, 0, 1], times=3),
         C('precondition', [1]), C('haltcondition', [2], wrap=[1]), C('followed_by', [2], times=3, loop=False, optional=False),
+        C('followed_by', [1], wrap=[2]), C('followed_by_any', [2, 0], wrap=[2, 1]), C('precondition', [0], wrap=[2]),
+        C('haltcondition', [1], wrap=[2]), C('next', [2], wrap=[2]), C('not_next', [0], wrap=[2]),
+        C('not_followed_by', [1], wrap=[2]), C('not_followed_by_any', [0, 1], wrap=[2, 2]),
     ]
 
 
@@ -354,7 +386,7 @@ def builder_cases(ctx: Ctx, res: Result):
         yield {'name': 'q', 'singleton': True, 'calls': renumber([first, c, last])}
     kmax = 4 if ctx.thorough else 3
     for k in range(1, kmax + 1):                       # all sequences over the reduced alphabet
-        for seq in itertools.product(red, repeat=k):
+        for seq in itertools.product(red if k < 4 else red[:16], repeat=k):
             yield {'name': 'p', 'singleton': k % 2 == 0, 'calls': renumber(seq)}
     n_rand = 20000 if ctx.thorough else 6000           # seeded: longer sequences over the full alphabet
     for _ in range(n_rand):
